@@ -56,6 +56,10 @@ def inventory_of(root):
         for n in tree.body:
             if isinstance(n, ast.ClassDef):
                 inv.append(f"{rel}:class {n.name}")
+            elif isinstance(n, (ast.Assign, ast.AnnAssign)):
+                for t in (n.targets if isinstance(n, ast.Assign) else [n.target]):
+                    if isinstance(t, ast.Name):
+                        inv.append(f"{rel}:const {t.id}")
     return sorted(set(inv))
 
 
@@ -279,7 +283,7 @@ class Inliner:
         return None
 
     # ------------------------------------------------------------- one call site
-    def _expand(self, call, q, caller_fn, mode, res_name):
+    def _expand(self, call, q, caller_fn, mode, res_name, self_name="self"):
         """-> statement list replacing the call; mode in {'return', 'value', 'effect'}"""
         fn, owner = self.helpers[q]
         if any(isinstance(a, ast.Starred) for a in call.args) or any(k.arg is None for k in call.keywords):
@@ -322,6 +326,10 @@ class Inliner:
                 continue
             if name in caller_names:
                 ren[name] = f"{name}_i{self.counter}"
+        if owner is not None and self_name != "self":
+            if "self" in stored:
+                raise NotInlinable("method rebinds self")
+            ren["self"] = self_name
         for p in order:
             a = binding[p]
             if p not in stored and isinstance(a, (ast.Constant, ast.Name)):
@@ -561,6 +569,315 @@ class Inliner:
         return self.inlined
 
 
+# ------------------------------------------------------------------ record scalarisation
+def _pure(e):
+    return not any(isinstance(x, (ast.Call, ast.Await, ast.Yield, ast.YieldFrom, ast.NamedExpr, ast.Lambda, ast.ListComp, ast.DictComp, ast.SetComp, ast.GeneratorExp))
+                   for x in ast.walk(e))
+
+
+def record_classes(tree, rel, inv):
+    """classes that are not part of the reference tree and are plain records: NamedTuple / dataclass without __init__, or a class whose
+    __init__ only stores call-free expressions of its parameters in `self.<field>`.  -> {name: dict(params, defaults, exprs, fields, methods)}"""
+    out = {}
+    for n in tree.body:
+        if not isinstance(n, ast.ClassDef) or f"{rel}:class {n.name}" in inv or n.keywords:
+            continue
+        bases = [ast.unparse(b) for b in n.bases]
+        decs = [ast.unparse(d) for d in n.decorator_list]
+        init = next((m for m in n.body if isinstance(m, ast.FunctionDef) and m.name == "__init__"), None)
+        methods = {m.name: m for m in n.body if isinstance(m, ast.FunctionDef) and not (m.name.startswith("__") and m.name.endswith("__"))}
+        if any(isinstance(m, ast.FunctionDef) and m.name.startswith("__") and m.name not in ("__init__", "__repr__") for m in n.body):
+            continue
+        ann = [(st.target.id, st.value) for st in n.body if isinstance(st, ast.AnnAssign) and isinstance(st.target, ast.Name)]
+        rec = None
+        if init is None and ((len(bases) == 1 and bases[0].endswith("NamedTuple")) or (not bases and any("dataclass" in d for d in decs))):
+            defaults = {}
+            for f, v in ann:
+                if v is None:
+                    continue
+                if isinstance(v, ast.Constant):
+                    defaults[f] = v
+                elif isinstance(v, ast.Call) and ast.unparse(v.func).endswith("field") and len(v.keywords) == 1 and v.keywords[0].arg == "default_factory" \
+                        and ast.unparse(v.keywords[0].value) in ("list", "dict"):
+                    defaults[f] = ast.List(elts=[], ctx=ast.Load()) if ast.unparse(v.keywords[0].value) == "list" else ast.Dict(keys=[], values=[])
+                else:
+                    defaults = None
+                    break
+            if defaults is not None and ann:
+                rec = {"params": [f for f, _ in ann], "defaults": defaults, "exprs": {f: ast.Name(id=f, ctx=ast.Load()) for f, _ in ann},
+                       "fields": [f for f, _ in ann], "tuple": bool(bases)}
+        elif init is not None and not bases and not decs and not init.decorator_list and not init.args.vararg and not init.args.kwarg and not init.args.kwonlyargs:
+            params = [a.arg for a in init.args.args][1:]
+            defaults = dict(zip(params[len(params) - len(init.args.defaults):], init.args.defaults)) if init.args.defaults else {}
+            exprs, ok = {}, all(isinstance(d, ast.Constant) for d in defaults.values())
+            for st in init.body:
+                if isinstance(st, ast.Expr) and isinstance(st.value, ast.Constant):
+                    continue
+                if isinstance(st, (ast.Assign, ast.AnnAssign)):
+                    tg = st.targets if isinstance(st, ast.Assign) else [st.target]
+                    if len(tg) == 1 and isinstance(tg[0], ast.Attribute) and isinstance(tg[0].value, ast.Name) and tg[0].value.id == "self" \
+                            and st.value is not None and _pure(st.value) and tg[0].attr not in exprs \
+                            and not any(isinstance(x, ast.Name) and x.id == "self" for x in ast.walk(st.value)):
+                        exprs[tg[0].attr] = st.value
+                        continue
+                ok = False
+            if ok and exprs:
+                rec = {"params": params, "defaults": defaults, "exprs": exprs, "fields": list(exprs), "tuple": False}
+        if rec:
+            rec["methods"], rec["node"] = methods, n
+            out[n.name] = rec
+    return out
+
+
+class Scalarizer:
+    """lists of records -> parallel lists of their fields (scalar replacement of aggregates), per function:
+         L = [R(a, b) for ..]           ->  L__x = [a for ..] ; L__y = [b for ..]
+         L = [] ... L.append(R(a, b))   ->  L__x = [] ; L__y = [] ... L__x.append(a) ; L__y.append(b)
+         for r in L: .. r.x .. r.m()    ->  for r__x, r__y in zip(L__x, L__y): .. r__x .. <body of m with self.x -> r__x>
+         for p, q in L (NamedTuple)     ->  for p, q in zip(L__x, L__y)
+       applied only when every use of L and of the loop variable is one of these forms and the field expressions are call-free"""
+
+    def __init__(self, inliner, records):
+        self.inl, self.records, self.count = inliner, records, 0
+
+    def _ctor(self, e):
+        if isinstance(e, ast.Call) and isinstance(e.func, ast.Name) and e.func.id in self.records and not any(isinstance(a, ast.Starred) for a in e.args) \
+                and all(k.arg for k in e.keywords):
+            return e.func.id
+        return None
+
+    def _field_exprs(self, call):
+        R = self.records[call.func.id]
+        bind = dict(zip(R["params"], call.args))
+        if len(call.args) > len(R["params"]):
+            return None
+        for k in call.keywords:
+            if k.arg in bind or k.arg not in R["params"]:
+                return None
+            bind[k.arg] = k.value
+        for p_ in R["params"]:
+            if p_ not in bind:
+                if p_ not in R["defaults"]:
+                    return None
+                bind[p_] = R["defaults"][p_]
+        if not all(_pure(v) or isinstance(v, (ast.List, ast.Dict)) for v in bind.values()):
+            return None
+        out = {}
+        for f in R["fields"]:
+            m = ast.Module(body=[ast.Expr(value=copy.deepcopy(R["exprs"][f]))], type_ignores=[])
+            _Subst({}, bind).visit(m)
+            out[f] = m.body[0].value
+        return out
+
+    def run_fn(self, fn, owner):
+        parents = {}
+        for x in ast.walk(fn):
+            for ch in ast.iter_child_nodes(x):
+                parents[id(ch)] = x
+        cands = {}
+        for st in ast.walk(fn):
+            if isinstance(st, ast.Assign) and len(st.targets) == 1 and isinstance(st.targets[0], ast.Name):
+                v, L = st.value, st.targets[0].id
+                if isinstance(v, ast.ListComp) and self._ctor(v.elt):
+                    cands.setdefault(L, {"cls": v.elt.func.id, "defs": []})["defs"].append(st)
+                elif isinstance(v, ast.List) and not v.elts:
+                    cands.setdefault(L, {"cls": None, "defs": []})["defs"].append(st)
+        for L, c in list(cands.items()):
+            ok, loops, appends, lens, tests = True, [], [], [], []
+            for x in ast.walk(fn):
+                if not (isinstance(x, ast.Name) and x.id == L):
+                    continue
+                p_ = parents.get(id(x))
+                if isinstance(x.ctx, ast.Store):
+                    ok = ok and any(p_ is d for d in c["defs"])
+                elif isinstance(p_, ast.For) and p_.iter is x:
+                    loops.append(p_)
+                elif isinstance(p_, ast.Attribute) and p_.attr == "append" and isinstance(parents.get(id(p_)), ast.Call) and parents[id(p_)].func is p_ \
+                        and isinstance(parents.get(id(parents[id(p_)])), ast.Expr) and len(parents[id(p_)].args) == 1 and self._ctor(parents[id(p_)].args[0]):
+                    call = parents[id(p_)]
+                    cls = call.args[0].func.id
+                    if c["cls"] not in (None, cls):
+                        ok = False
+                    c["cls"] = cls
+                    appends.append(parents[id(call)])
+                elif isinstance(p_, ast.Call) and isinstance(p_.func, ast.Name) and p_.func.id == "len" and p_.args == [x]:
+                    lens.append(x)
+                elif isinstance(p_, (ast.If, ast.While)) and p_.test is x:
+                    tests.append(x)
+                elif isinstance(p_, ast.UnaryOp) and isinstance(p_.op, ast.Not):
+                    tests.append(x)
+                else:
+                    ok = False
+            if not ok or c["cls"] is None or not loops:
+                del cands[L]
+                continue
+            c.update(loops=loops, appends=appends, lens=lens, tests=tests)
+        done = 0
+        for L, c in cands.items():
+            if self._apply(fn, owner, L, c, parents):
+                done += 1
+        self.count += done
+        return done
+
+    def _apply(self, fn, owner, L, c, parents):
+        R = self.records[c["cls"]]
+        fields = R["fields"]
+        # ---- field expressions of every construction
+        ctor_exprs = {}
+        for d in c["defs"]:
+            if isinstance(d.value, ast.ListComp):
+                fe = self._field_exprs(d.value.elt)
+                if fe is None:
+                    return False
+                ctor_exprs[id(d)] = fe
+        for a in c["appends"]:
+            fe = self._field_exprs(a.value.args[0])
+            if fe is None:
+                return False
+            ctor_exprs[id(a)] = fe
+        # ---- loops: method calls on the loop variable are inlined first, then every use must be a field read
+        plans = []
+        for lp in c["loops"]:
+            tg = lp.target
+            if isinstance(tg, ast.Tuple):
+                if not R["tuple"] or len(tg.elts) != len(fields):
+                    return False
+                plans.append((lp, None))
+                continue
+            if not isinstance(tg, ast.Name):
+                return False
+            rv = tg.id
+            if any(isinstance(x, ast.Name) and x.id == rv and isinstance(x.ctx, ast.Store) for st in lp.body for x in ast.walk(st)):
+                return False
+            body = self._inline_methods(lp.body, rv, c["cls"], fn, owner)
+            if body is None:
+                return False
+            # uses of rv after inlining
+            pm = {}
+            for st in body:
+                for x in ast.walk(st):
+                    for ch in ast.iter_child_nodes(x):
+                        pm[id(ch)] = x
+            for st in body:
+                for x in ast.walk(st):
+                    if isinstance(x, ast.Name) and x.id == rv:
+                        p_ = pm.get(id(x))
+                        if not (isinstance(p_, ast.Attribute) and p_.value is x and p_.attr in fields and isinstance(p_.ctx, ast.Load)):
+                            return False
+            # the loop variable must not be used after the loop
+            used_outside = any(isinstance(x, ast.Name) and x.id == rv and not any(self._inside(x, l2, parents) for l2 in c["loops"]) for x in ast.walk(fn))
+            if used_outside:
+                return False
+            plans.append((lp, body))
+        # ---- rewrite
+        names = _names_in(fn)
+        fname = {f: f"{L}__{f}" for f in fields}
+        if any(v in names for v in fname.values()):
+            return False
+        for lp, body in plans:
+            zipc = ast.Call(func=ast.Name(id="zip", ctx=ast.Load()), args=[ast.Name(id=fname[f], ctx=ast.Load()) for f in fields], keywords=[])
+            if body is None:
+                lp.iter = zipc if len(fields) > 1 else ast.Name(id=fname[fields[0]], ctx=ast.Load())
+                if len(fields) == 1:
+                    lp.target = lp.target.elts[0]
+                continue
+            rv = lp.target.id
+            rn = {f: f"{rv}__{f}" for f in fields}
+
+            class FR(ast.NodeTransformer):
+                def visit_Attribute(self_, n):
+                    if isinstance(n.value, ast.Name) and n.value.id == rv and n.attr in rn:
+                        return ast.Name(id=rn[n.attr], ctx=ast.Load())
+                    return self_.generic_visit(n)
+            m = ast.Module(body=body, type_ignores=[])
+            FR().visit(m)
+            lp.body = m.body
+            lp.target = ast.Tuple(elts=[ast.Name(id=rn[f], ctx=ast.Store()) for f in fields], ctx=ast.Store()) if len(fields) > 1 else ast.Name(id=rn[fields[0]], ctx=ast.Store())
+            lp.iter = zipc if len(fields) > 1 else ast.Name(id=fname[fields[0]], ctx=ast.Load())
+        repl = {}
+        for d in c["defs"]:
+            new = []
+            for f in fields:
+                if isinstance(d.value, ast.ListComp):
+                    v = ast.ListComp(elt=ctor_exprs[id(d)][f], generators=copy.deepcopy(d.value.generators))
+                else:
+                    v = ast.List(elts=[], ctx=ast.Load())
+                new.append(ast.Assign(targets=[ast.Name(id=fname[f], ctx=ast.Store())], value=v, lineno=d.lineno))
+            repl[id(d)] = new
+        for a in c["appends"]:
+            repl[id(a)] = [ast.Expr(value=ast.Call(func=ast.Attribute(value=ast.Name(id=fname[f], ctx=ast.Load()), attr="append", ctx=ast.Load()),
+                                                   args=[ctor_exprs[id(a)][f]], keywords=[]), lineno=a.lineno) for f in fields]
+        for x in c["lens"] + c["tests"]:
+            x.id = fname[fields[0]]
+
+        class RS(ast.NodeTransformer):
+            def generic_visit(self_, node):
+                super().generic_visit(node)
+                for f_ in ("body", "orelse", "finalbody"):
+                    blk = getattr(node, f_, None)
+                    if isinstance(blk, list) and blk and isinstance(blk[0], ast.stmt):
+                        out = []
+                        for st in blk:
+                            out += repl.get(id(st), [st])
+                        setattr(node, f_, out)
+                return node
+        RS().visit(fn)
+        return True
+
+    @staticmethod
+    def _inside(x, loop, parents):
+        p_ = parents.get(id(x))
+        while p_ is not None:
+            if p_ is loop:
+                return True
+            p_ = parents.get(id(p_))
+        return False
+
+    def _inline_methods(self, body, rv, cls, fn, owner):
+        """statement list with `rv.m(..)` statements / `t = rv.m(..)` replaced by the body of method m of the record class (self -> rv)"""
+        R = self.records[cls]
+        inl = self.inl
+        out = []
+        for st in body:
+            for f_ in ("body", "orelse", "finalbody"):
+                blk = getattr(st, f_, None)
+                if isinstance(blk, list) and blk and isinstance(blk[0], ast.stmt):
+                    nb = self._inline_methods(blk, rv, cls, fn, owner)
+                    if nb is None:
+                        return None
+                    setattr(st, f_, nb)
+            for h in getattr(st, "handlers", []) or []:
+                nb = self._inline_methods(h.body, rv, cls, fn, owner)
+                if nb is None:
+                    return None
+                h.body = nb
+            call = st.value if isinstance(st, (ast.Expr, ast.Assign)) and isinstance(getattr(st, "value", None), ast.Call) else None
+            if call is not None and isinstance(call.func, ast.Attribute) and isinstance(call.func.value, ast.Name) and call.func.value.id == rv \
+                    and call.func.attr in R["methods"]:
+                mnode = R["methods"][call.func.attr]
+                if not _basic_ok(mnode):
+                    return None
+                q = f"{cls}.{call.func.attr}"
+                saved = inl.helpers
+                inl.helpers = dict(saved)
+                inl.helpers[q] = (mnode, R["node"])
+                try:
+                    if isinstance(st, ast.Expr):
+                        new = inl._expand(call, q, fn, "effect", None, self_name=rv)
+                    elif len(st.targets) == 1 and isinstance(st.targets[0], ast.Name):
+                        new = inl._expand(call, q, fn, "value", st.targets[0].id, self_name=rv)
+                    else:
+                        return None
+                except NotInlinable:
+                    return None
+                finally:
+                    inl.helpers = saved
+                out += new
+                continue
+            out.append(st)
+        return out
+
+
 class Normalizer(ast.NodeTransformer):
     """control-flow normal form (behaviour-preserving):
       N1  loop body `if c: continue` + rest        ->  `if not c: rest`
@@ -624,6 +941,27 @@ class Normalizer(ast.NodeTransformer):
             i += 1
         return out
 
+    def _copy_prop(self, stmts):
+        """N5  `x = y` (two local names) followed, in the same block, by statements that rebind neither: the later reads of x read y"""
+        out = list(stmts)
+        for i, st in enumerate(out):
+            if isinstance(st, ast.Assign) and len(st.targets) == 1 and isinstance(st.targets[0], ast.Name) and isinstance(st.value, ast.Name) \
+                    and st.targets[0].id != st.value.id:
+                x, y = st.targets[0].id, st.value.id
+                rest = out[i + 1:]
+                if not rest:
+                    continue
+                clobber = any((isinstance(n, ast.Name) and n.id in (x, y) and isinstance(n.ctx, (ast.Store, ast.Del))) or
+                              (isinstance(n, ast.ExceptHandler) and n.name in (x, y)) or isinstance(n, (ast.Global, ast.Nonlocal, ast.Lambda, ast.FunctionDef))
+                              for s2 in rest for n in ast.walk(s2))
+                if clobber:
+                    continue
+                m = ast.Module(body=rest, type_ignores=[])
+                _Subst({}, {x: ast.Name(id=y, ctx=ast.Load())}).visit(m)
+                out[i + 1:] = m.body
+                self.count += 1
+        return out
+
     def visit_FunctionDef(self, f):
         prev = getattr(self, "fn_stores", {})
         self.fn_stores = {}
@@ -631,13 +969,13 @@ class Normalizer(ast.NodeTransformer):
             if isinstance(x, ast.Name) and isinstance(x.ctx, (ast.Store, ast.Del)):
                 self.fn_stores[x.id] = self.fn_stores.get(x.id, 0) + 1
         self.generic_visit(f)
-        f.body = self._slice_alias(f.body)
+        f.body = self._copy_prop(self._slice_alias(f.body))
         self.fn_stores = prev
         return f
 
     def visit_For(self, n):
         self.generic_visit(n)
-        n.body = self._slice_alias(self._loop_body(n.body))
+        n.body = self._copy_prop(self._slice_alias(self._loop_body(n.body)))
         n.orelse = self._slice_alias(n.orelse) if n.orelse else n.orelse
         return n
 
@@ -662,6 +1000,19 @@ class Normalizer(ast.NodeTransformer):
             # `not not X` is bool(X): only equal to X in a test position; keep unless the parent is a test (handled by callers)
             return n
         return n
+
+
+def _numeric_literal(e):
+    """a constant arithmetic expression over numbers and np.pi / math.pi"""
+    if isinstance(e, ast.Constant):
+        return isinstance(e.value, (int, float)) and not isinstance(e.value, bool)
+    if isinstance(e, ast.Attribute):
+        return e.attr in ("pi", "e") and isinstance(e.value, ast.Name) and e.value.id in ("np", "numpy", "math")
+    if isinstance(e, ast.BinOp):
+        return isinstance(e.op, (ast.Add, ast.Sub, ast.Mult, ast.Div, ast.Pow)) and _numeric_literal(e.left) and _numeric_literal(e.right)
+    if isinstance(e, ast.UnaryOp):
+        return isinstance(e.op, (ast.USub, ast.UAdd)) and _numeric_literal(e.operand)
+    return False
 
 
 def _referenced(trees, name):
@@ -703,13 +1054,31 @@ def build_inlined_tree(src_root, dst_root):
             if isinstance(n, ast.ClassDef):
                 other[n.name] = {m for m, where in defined.items() if any(w != (rel, n.name) for w in where)}
         inl = Inliner(rel, t, inv, other)
-        if not inl.helpers and not inl.gen_helpers:
+        recs = record_classes(t, rel, inv)
+        if not inl.helpers and not inl.gen_helpers and not recs:
             continue
         done = inl.run()
         if done:
             changed.add(rel)
             for q, k in done.items():
                 report["inlined"][f"{rel}:{q}"] = k
+        if recs:
+            sc = Scalarizer(inl, recs)
+            for q, (fn, owner) in inl.funcs.items():
+                if owner is None or owner.name not in recs:
+                    sc.run_fn(fn, owner)
+            if sc.count:
+                changed.add(rel)
+                report.setdefault("scalarised", {})[rel] = sc.count
+                for cname, R in recs.items():
+                    node = R["node"]
+                    if node in t.body:
+                        idx = t.body.index(node)
+                        t.body.remove(node)
+                        if _referenced(trees.values(), cname):
+                            t.body.insert(idx, node)
+                        else:
+                            report["removed"].append(f"{rel}:class {cname}")
     # remove helpers that are no longer referenced anywhere
     for rel in sorted(changed):
         t = trees[rel]
@@ -730,6 +1099,25 @@ def build_inlined_tree(src_root, dst_root):
                 report["removed"].append(f"{rel}:{q}")
                 if not holder.body:
                     holder.body.append(ast.Pass())
+    # module-level numeric constants that are not part of the reference tree are folded back into their uses
+    for rel, t in trees.items():
+        for n in list(t.body):
+            if isinstance(n, ast.Assign) and len(n.targets) == 1 and isinstance(n.targets[0], ast.Name) and f"{rel}:const {n.targets[0].id}" not in inv \
+                    and _numeric_literal(n.value):
+                name = n.targets[0].id
+                stores = [x for x in ast.walk(t) if isinstance(x, ast.Name) and x.id == name and isinstance(x.ctx, (ast.Store, ast.Del))]
+                shadow = any(isinstance(x, ast.arg) and x.arg == name for x in ast.walk(t)) or any(
+                    isinstance(x, (ast.Global, ast.Nonlocal)) and name in x.names for x in ast.walk(t))
+                if len(stores) != 1 or shadow:
+                    continue
+                t.body.remove(n)
+                _Subst({}, {name: n.value}).visit(t)
+                if _referenced([tr for r2, tr in trees.items() if r2 != rel], name):
+                    t.body.insert(0, n)
+                    while isinstance(t.body[1], (ast.Import, ast.ImportFrom)) or (isinstance(t.body[1], ast.Expr) and isinstance(t.body[1].value, ast.Constant)):
+                        t.body.insert(0, t.body.pop(1))
+                changed.add(rel)
+                report.setdefault("constants_folded", []).append(f"{rel}:{name}")
     report["normalised"] = {}
     for rel, t in trees.items():
         nz = Normalizer()
